@@ -355,6 +355,14 @@ psRes_t psRsaPssVerify(psPool_t *pool,
     {
         return PS_ARG_FAIL;
     }
+    /* RFC 8017, 8.1.2 step 1: a signature whose length is not the length
+       of the modulus is invalid (psRsaCrypt would otherwise accept the
+       same integer with leading zero octets added or removed). */
+    if (sigLen != key->keysize)
+    {
+        psTraceCrypto("psRsaPssVerify: bad signature length\n");
+        return PS_ARG_FAIL;
+    }
     em = psMalloc(pool, key->keysize);
     if (em == NULL)
     {
